@@ -15,8 +15,8 @@ RULE = ('placement enumeration: 11 statement constructs + 5 expression construct
         'while, for, block, try/undo body, try/stop body, undo handler, stop handler, preempt) of depth <= D in ordinary, you and defeat functions, plus '
         'global initialisers; quick: D=2,k=1 exhaustive; thorough: D=3,k=1 exhaustive + D<=6,k<=3 random; everything else in each program is '
         'well-typed so the placement is the only possible reason for rejection; every case is a distinct placement (non-trivial)')
-ASSUMPTIONS = ['legality is the literal reading of the five clauses of the property statement; a ?? nested inside a ?? operand is not generated '
-               '(the statement does not decide it)']
+ASSUMPTIONS = ['legality is the literal reading of the five clauses of the property statement; a ?? nested inside an operand of ?? is illegal: README '
+               '"the operands of ?? must be ordinary expressions", and speculation "can only be used by you"']
 REQUIRED_HIDC_FUNCTIONS = ['parser/grammar:ps_block', 'parser/grammar:ps_func_call', 'parser/grammar:ps_expr']     # M-COV: deciding code never entered => inconclusive
 MIN_NONTRIVIAL = {'quick': 100000, 'thorough': 1000000}
 
@@ -80,11 +80,6 @@ def random_case(r):
     cn = r.choice(list(contexts.EXPR_CONSTRUCTS))
     text, rule = contexts.EXPR_CONSTRUCTS[cn]
     ok2, why2 = rule(ce)
-    if cn == 'speculation' and ce.in_spec:
-        cn, (text, rule) = 'plain', contexts.EXPR_CONSTRUCTS['plain']      # nested ?? is not generated
-        ok2, why2 = True, ''
-    if sum(1 for w in epath if w.startswith('spec')) > 1:
-        return None
     e = text
     for w in reversed(epath):
         e = contexts.EXPR_WRAPPERS[w][0].replace('E', e)
@@ -97,8 +92,6 @@ def run_shard(spec):
     matrix = {}
     if spec['kind'] == 'enum':
         for tag, src, legal, why in contexts.cases(spec['depth'], spec['expr_depth'], spec['part'], spec['parts']):
-            if 'spec_' in tag and tag.endswith('/speculation'):
-                continue          # ?? nested in a ?? operand: not decided by the statement
             judge(res, tag, src, legal, why, matrix)
             if len(res['samples']) < 2 and legal and tag.count('>') >= 1:
                 res['samples'].append({'placement': tag, 'expected': 'accept', 'source': src[len(contexts.HELPERS):]})
